@@ -289,15 +289,31 @@ def step (line : String) : String :=
     | some B, some BX, some data, some rs, some fs, some sp, some ops, some sc =>
       if (fl ≠ "s" ∧ fl ≠ "n") ∨ B = 0 then "bad-op" else
       let limit := 4 * data.length + 1000
-      match tarMemberRun (xfrmStream (fileStream B) passCodec BX limit) ⟨IStream.init data, 0, 0, []⟩ ⟨rs, fs, sp⟩
+      -- a failed probe or a first byte other than the toy magic: `tar_open_stream` reads the raw stream (not a tar
+      -- archive here: outside the model; the harness prints the same token)
+      if !tarOpenDetect (fileStream B) (IStream.init data) (fun w => w.head? = some 0xC1) ⟨sc, []⟩ then "z=0 unmodelled" else
+      -- the compressed branch of `tar_open_stream`: probe on the raw stream, then the decompressing stream (toy
+      -- decompressor `zCodec`) around it, `compressed = true`
+      match tarMemberRunZ (fileStream B) zCodec 0 BX limit (IStream.init data) ⟨rs, fs, sp⟩
           (OStream.init (fl = "n")) ops ⟨sc, []⟩ with
       | (n1, obs, n2, it, o, os) =>
         showTarRun (n1, obs, n2, it, o, os) ++
+        " z=" ++ (if it.compressed then "1" else "0") ++
         " xst=" ++ toString it.stream.off ++ "," ++ toString it.stream.buf.length ++ "," ++ toString it.stream.k ++
         " st=" ++ (if it.stream.wrapped.eof then "1" else "0") ++ "," ++ toString it.stream.wrapped.off ++ "," ++
         toString it.stream.wrapped.buf.length ++
         " " ++ showOstream o ++ tail os
     | _, _, _, _, _, _, _, _ => "bad-op"
+  | ["xtarspec", b, bx, d, rs, fs, sp, ops] =>
+    -- the same run over the ideal window stream (no buffer, no OS): the other side of
+    -- `tar_member_run_decompressed_chunking_independent`
+    match b.toNat?, bx.toNat?, parseData d, rs.toNat?, fs.toNat?, parseSparse sp, parseOps ops with
+    | some B, some BX, some data, some rs, some fs, some sp, some ops =>
+      if B = 0 then "bad-op" else
+      let limit := 4 * data.length + 1000
+      match tarMemberRunZ (Sqfs.IoLoops.Spec.idealStream B data) zCodec 0 BX limit ⟨0, 0⟩ ⟨rs, fs, sp⟩ (OStream.init false) ops OS.full with
+      | (n1, obs, n2, it, o, os) => showTarRun (n1, obs, n2, it, o, os) ++ " out=" ++ dtok o.out
+    | _, _, _, _, _, _, _ => "bad-op"
   | ["tarspec", b, d, rs, fs, sp, ops] =>
     match b.toNat?, parseData d, rs.toNat?, fs.toNat?, parseSparse sp, parseOps ops with
     | some B, some data, some rs, some fs, some sp, some ops =>
